@@ -175,3 +175,24 @@ Proof.
   - apply (left_fixed_barrier x 44 (join [44] (y :: r))); [reflexivity | exact Hne | exact (proj1 (trim_fixed x Hne Hx))].
   - apply right_fixed_join; [discriminate | exact Hl].
 Qed.
+
+(* ---- the byte-order mark: none of its bytes occurs in a white-space sequence ---- *)
+Lemma strip_space1_rev_barrier_gen a c rest : a <> [] -> Forall (fun q => ~ In c q) (map (@rev N) space_seqs) ->
+  strip_space1_rev a = None -> strip_space1_rev (a ++ c :: rest) = None.
+Proof.
+  intros Hne Hc H. destruct a as [|z t]; [contradiction|]. cbn [app]. unfold strip_space1_rev in *.
+  destruct (is_ascii_space z); [discriminate|]. destruct (z <? 128); [reflexivity|].
+  change (z :: t ++ c :: rest) with ((z :: t) ++ c :: rest).
+  apply strip_any_barrier; [exact Hc | exact H].
+Qed.
+Lemma bom_last_not_space : Forall (fun q => ~ In 191 q) (map (@rev N) space_seqs).
+Proof.
+  unfold space_seqs. cbn [map rev app]. repeat constructor; intros H; repeat (destruct H as [H|H]; [discriminate|]); exact H.
+Qed.
+Lemma trim_space_bom l : l <> [] -> trim_space l = l -> trim_space ([239; 187; 191] ++ l) = [239; 187; 191] ++ l.
+Proof.
+  intros Hne Ht. destruct (trim_fixed l Hne Ht) as [_ Hr]. apply fixed_trim; [reflexivity|].
+  unfold right_fixed in *. rewrite rev_app_distr. cbn [rev app].
+  apply strip_space1_rev_barrier_gen; [|exact bom_last_not_space | exact Hr].
+  intros E. apply Hne. rewrite <- (rev_involutive l), E. reflexivity.
+Qed.
